@@ -5,6 +5,8 @@
 //	reset                                   first op of every case (fresh runner / fresh model state)
 //	setup                                   create + fund the wallet (one external address issued, one 1-BTC credit)
 //	markused                                mark the most recently issued external address as used
+//	rename                                  Wallet.RenameAccount of account 0 (a fresh name each time): rewrites the account
+//	                                        row; must leave the next indices alone, in memory and in the database
 //	sched c=<kind;kind;...> s=<i,i,...>     run the callers under the forced schedule (ids into c)
 //	race g=<n> m=<n> mix=<kind,kind,...>    n goroutines x m calls, free running (Go scheduler decides)
 //
@@ -80,6 +82,7 @@ type callResult struct {
 // ---------------------------------------------------------------- runner
 
 type runner struct {
+	renames int
 	dir    string
 	inner  walletdb.DB
 	ctl    *controller
@@ -506,6 +509,24 @@ func (r *runner) Exec(op string) (string, string) {
 			return "err setup " + err.Error(), ""
 		}
 		return r.state("ok")
+	case "rename":
+		r.renames++
+		if err := r.w.RenameAccount(scope, 0, fmt.Sprintf("acct-%d", r.renames)); err != nil {
+			return "err rename", ""
+		}
+		rep, _ := r.state("ok")
+		var v []string
+		if memE, memI, err := r.memNext(); err == nil {
+			if diskE, diskI, err := r.diskNext(); err == nil {
+				if memE != diskE {
+					v = append(v, fmt.Sprintf("C09 key=mem-disk.branch0: after RenameAccount the in-memory next external index is %d, a reopened database says %d (a restart would hand out addresses again or skip some)", memE, diskE))
+				}
+				if memI != diskI {
+					v = append(v, fmt.Sprintf("C09 key=mem-disk.branch1: after RenameAccount the in-memory next internal index is %d, a reopened database says %d (a restart would hand out addresses again or skip some)", memI, diskI))
+				}
+			}
+		}
+		return rep, strings.Join(v, "; ")
 	case "markused":
 		e, _, err := r.memNext()
 		if err != nil || e == 0 {
@@ -744,6 +765,10 @@ func (engine) Generate(rng *rand.Rand, tier string) []core.Case {
 					}
 					full := append(append([]int{}, s...), drain(2, 9)...)
 					c.Ops = append(c.Ops, fmt.Sprintf("sched c=%s;%s s=%s", a, b, schedStr(full)))
+					if len(c.Ops)%7 == 0 {
+						// an account rename between two rounds of issuing (seed C09-6): the counters must survive it
+						c.Ops = append(c.Ops, "rename")
+					}
 				}
 				cases = append(cases, c)
 			}
